@@ -22,7 +22,7 @@ RULE = ("E1: (a) do(): every DAG on <=3 nodes (4 in thorough) x every do-set x i
         "get_all_frontdoor_adjustment_sets under all relabelings, vs explicit path enumeration. non-trivial = distinct "
         "(graph, X, Y) with >=1 back-door path; distinct (model, do, query) where P(y|do(x)) != P(y|x)")
 BOUNDS = {"quick": "(a) n<=3; (b) all 25 DAGs n=3 + 31 iso classes n=4 (|do|=1) ; (c) all DAGs n<=4 (543) under identity + 2 relabelings (rotating with VERIF_SEED) and the 302 isomorphism classes of 5-node DAGs under 2 relabelings",
-          "thorough": "(a) n<=4, (b) all DAGs n=4, (c) all 24 relabelings; 5-node iso sample"}
+          "thorough": "(a) n<=4 and the 302 classes n=5, (b) all DAGs n=4 (|do|<=2) and the 302 classes n=5 (|do|=1), (c) all 24 relabelings n<=4; 5-node classes under 12 relabelings and all 29281 labelled 5-node DAGs under the identity"}
 EXHAUSTIVE = {"quick": True, "thorough": True}
 ASSUMPTIONS = ["strictly positive CPDs (the adjustment formula conditions on (x,z))", "query sets disjoint from the do-set and its parents (the engine refuses others)",
                "front-door verdicts are compared only when a directed path X->..->Y exists"]
@@ -49,6 +49,15 @@ def groups(tier, seed):
     iso5 = iso_classes(5)
     for i in range(0, len(iso5), 10):
         out.append({"part": "crit5", "dags": [[list(e) for e in d] for d in iso5[i:i + 10]], "rot": seed})
+    if tier == "thorough":
+        # 5 nodes: do() and single interventions on every isomorphism class, criteria on every labelled DAG
+        for i in range(0, len(iso5), 10):
+            out.append({"part": "do5", "dags": [[list(e) for e in d] for d in iso5[i:i + 10]]})
+        for e in iso5:
+            out.append({"part": "query", "n": 5, "edges": [list(x) for x in e], "dmax": 1})
+        n5 = len(all_dags(5))
+        for i in range(0, n5, 60):
+            out.append({"part": "crit", "n": 5, "lo": i, "hi": min(i + 60, n5), "rot": seed, "identity": True})
     return out
 
 
@@ -60,6 +69,9 @@ def run_group(g, tier):
             _do(st, g["n"], dags[i])
     elif g["part"] == "query":
         _query(st, g)
+    elif g["part"] == "do5":
+        for d in g["dags"]:
+            _do(st, 5, [tuple(e) for e in d])
     elif g["part"] == "crit5":
         perms = list(permutations(range(5)))
         for d in g["dags"]:
@@ -69,6 +81,8 @@ def run_group(g, tier):
         dags = all_dags(g["n"])
         perms = list(permutations(range(g["n"])))
         pick = [perms[0], perms[(1 + g["rot"]) % len(perms)], perms[(len(perms) // 2 + g["rot"]) % len(perms)]] if tier == "quick" else perms
+        if g.get("identity"):
+            pick = [perms[0]]
         for i in range(g["lo"], g["hi"]):
             for p in dict.fromkeys(pick):
                 _crit(st, g["n"], dags[i], list(p))
@@ -91,7 +105,7 @@ def replay(case):
 def _do(st, n, edges):
     from pgmpy.base import DAG
 
-    ref = bn_from_desc({"n": n, "edges": [list(e) for e in edges], "card": [2, 3, 2, 2][:n], "cols": {"fp": 0}})
+    ref = bn_from_desc({"n": n, "edges": [list(e) for e in edges], "card": [2, 3, 2, 2, 2][:n], "cols": {"fp": 0}})
     lab = Labeling(n, ref.card, "str", None, "str")
     st.states += 1
     for xs in subsets(range(n)):
@@ -175,7 +189,7 @@ def _query(st, g):
     from pgmpy.inference import CausalInference
 
     n, edges = g["n"], [tuple(e) for e in g["edges"]]
-    ref = bn_from_desc({"n": n, "edges": g["edges"], "card": [2, 3, 2, 2][:n], "cols": {"fp": 0}})
+    ref = bn_from_desc({"n": n, "edges": g["edges"], "card": [2, 3, 2, 2, 2][:n], "cols": {"fp": 0}})
     lab = Labeling(n, ref.card, "str", None, "str")
     gr = G(n, edges)
     from mc.gen.dags import is_connected
